@@ -760,7 +760,8 @@ class BaseBackend(CodeGen):
                 state_rec[idx, :] = y
                 idx += 1
             step = i + t0
-            rhs = func(step, y, *args)
+            # copy: func returns its (shared) dy buffer, which the second evaluation overwrites
+            rhs = np.array(func(step, y, *args))
             y_0 = y + dt * rhs
             y += dt/2 * (rhs + func(step, y_0, *args))
             if has_dde:
